@@ -593,4 +593,15 @@ def unit10Bases : List (String × String) := [
   ("FilterEffectChannel", "BaseElement"),
   ("FilterEffectExtra", "BaseElement")
 ]
+
+/-- the class names of `image_resources.TYPES` that have a codec in the model (all of them) -/
+def unit7Modelled : List String := ["ResoulutionInfo", "AlphaNamesPascal", "PascalString", "Color", "PrintFlags", "HalftoneScreens",
+  "TransferFunctions", "ShortInteger", "LayerGroupInfo", "GridGuidesInfo", "ThumbnailResourceV4", "Byte", "ThumbnailResource", "Integer",
+  "AlphaNamesUnicode", "Slices", "StringElement", "AlphaIdentifiers", "URLList", "VersionInfo", "PrintScale", "PixelAspectRatio",
+  "DescriptorBlock", "LayerSelectionIDs", "LayerGroupEnabledIDs", "DisplayInfo", "PrintFlagsInfo"]
+
+/-- the class names under the `ADJUSTMENT_TYPES` keys that have a codec in the model (all of them) -/
+def unit8Modelled : List String := ["DescriptorBlock", "ColorBalance", "BrightnessContrast", "ColorLookup", "Curves", "Exposure", "GradientMap",
+  "HueSaturation", "Levels", "ChannelMixer", "EmptyElement", "PhotoFilter", "ShortIntegerElement", "SelectiveColor"]
+
 end PsdVerif.Payload3.Tables
